@@ -473,9 +473,12 @@ fn c28(out: &mut Out, rng: &mut Rng, thorough: bool) {
     v[7] = 3;
     passing.push(v);
     if thorough {
+        // one more query round than the base (conjectured FRI security stays >= security_bits: plonky2's CircuitBuilder::new
+        // asserts it and PANICS otherwise - e.g. security_bits = 99 with 27 rounds at rate 3 passes the structural policy and
+        // panics in the builder; that is outside C28's statement, which speaks about FAILING configs, and is recorded as an
+        // observation in DESIGN.md 12.9)
         let mut v = bases[0];
-        v[8] = 27;
-        v[2] = 99;
+        v[8] += 1;
         passing.push(v);
     }
     for c in &passing {
